@@ -1,5 +1,5 @@
 ---- MODULE AmlNsX ----
-(* extra-amlgrow (DESIGN.md section 5 item 6): the ACPI namespace loader of C11 (specs/aml/AmlNs.tla, *)
+(* extra-amlgrow (DESIGN.md section 5 item 6): the ACPI namespace loader of C11 (snapshot AmlNsBase.tla,*)
 (* extended READ-ONLY) grown towards the full AML opcode table.                                     *)
 (*                                                                                                 *)
 (* PROPERTY STATEMENTS                                                                             *)
@@ -37,7 +37,7 @@
 (* the construct out of the generated language through a trigger (kind B, like the open findings of  *)
 (* C11); with the switch OFF it describes ACPI.  tools/checks/extra_amlgrow.py runs with the set     *)
 (* that matches /repo, prints every active one with its minimal program and checks that program.     *)
-EXTENDS AmlNs
+EXTENDS AmlNsBase
 
 CONSTANT Devs
 DevAll == {"IndexFieldNamed", "AliasKeepsSourceName", "ExternalIsObject", "CreateFieldNotNamed", "PackageMethodRefInvoked",
@@ -275,13 +275,16 @@ LateTrig(st, it) ==
                 THEN {"MethodAsRef"} ELSE {})
           \* (kind B of Dev_CreateFieldNotNamed / Dev_AliasKeepsSourceName) a created field or alias name used inside a deferred block
           \cup (IF \E y \in StrictLooked(x, it.ctx = "strict") : Lookup(v, it.cur, y.f) = None THEN {"HiddenNameInDeferred"} ELSE {})
+          \* the units of a BankField come into being only when the deferred pass reaches it: a deferred block that is read earlier and
+          \* names one of them rejects the table (conservative: any BankField unit of the table that is being loaded)
+          \cup (IF \E y \in StrictLooked(x, it.ctx = "strict") : Lookup(v, it.cur, y.f) \in st.late THEN {"BankFieldUnitInDeferred"} ELSE {})
         : i \in 1..Len(it.x) }
 (* ------------------------------------------------------------------ the loader *)
 \* st of AmlNs plus: xs (see Vis), items (everything of this table that has to be rendered at its end, in token order:
 \*   [own (path of the method / scope a body token belongs to, None for declaration values), cur, k, x, ctx]),
 \*   bodies / calls of finished tables (rendered), xstk (parallel to stack: [strict, flatif, early, sealed]), locals
 S0X == [ns |-> Predef, names |-> {}, displaced |-> {}, stack |-> <<>>, pend |-> <<>>, calls |-> <<>>, tab |-> 1, trig |-> {}, err |-> <<>>,
-        xs |-> {}, exts |-> {}, items |-> <<>>, bodies |-> <<>>, xstk |-> <<>>, locals |-> {}, d |-> 0]
+        xs |-> {}, exts |-> {}, items |-> <<>>, bodies |-> <<>>, xstk |-> <<>>, locals |-> {}, d |-> 0, late |-> {}]
 TopX(st)    == Last(st.xstk)
 Strict(st)  == st.xstk # <<>> /\ TopX(st).strict
 Ctx(st)     == IF Strict(st) THEN "strict" ELSE "flat"
@@ -399,7 +402,7 @@ BankField(st, t) ==
   THEN Fail(st, <<"BankField names do not designate a region and a field unit", t>>)
   ELSE IF ~TermWF(t.x[1]) THEN Fail(st, <<"malformed bank value", t>>)
   ELSE IF s1.err # <<>> THEN s1
-  ELSE AddItem([s1 EXCEPT !.xs = @ \cup {[p |-> Cur(st), kind |-> "BankField",
+  ELSE AddItem([s1 EXCEPT !.late = @ \cup {us[i].p : i \in 1..Len(us)}, !.xs = @ \cup {[p |-> Cur(st), kind |-> "BankField",
                                           args |-> <<AsName(t.f), AsName(t.g), t.x[1], [t |-> "byte", n |-> <<t.flags>>]>>]}],
                ValueItem(st, t.x, "strict"))
 \* Field over a DataRegion is a Field: AmlNs!DeclField does not look the region up
@@ -460,7 +463,7 @@ EndTableX(st) ==
   ELSE IF bad # {} THEN Fail(st, <<"name or invocation does not match a declaration", st.items[CHOOSE i \in bad : TRUE]>>)
   ELSE [st EXCEPT !.calls = @ \o [i \in 1..Len(cs) |-> [tab |-> st.tab, p |-> cs[i].p, a |-> cs[i].a]],
                   !.bodies = @ \o [i \in 1..Len(body) |-> [own |-> body[i].own, tok |-> RenItem(st, body[i])]],
-                  !.items = <<>>, !.tab = @ + 1, !.displaced = {}, !.trig = @ \cup late]
+                  !.items = <<>>, !.tab = @ + 1, !.displaced = {}, !.trig = @ \cup late, !.late = {}]
 
 ApplyX(st, t) ==
   IF st.err # <<>> THEN st
